@@ -228,7 +228,14 @@ def run(chk):
         hist["defaulted"] += any(isinstance(d, tuple) and n not in c.written for n, _, d in c.decls)
         hist["tokenized"] += any(ty != "CDATA" for _, ty, _ in c.decls)
         hist["with_entity"] += "&e" in t.split("]>")[-1] or any(isinstance(d, tuple) and "&e" in d[1] for _, _, d in c.decls)
-        hist["with_charref_ws"] += any(x in t for x in ("&#9;", "&#10;", "&#13;", "&#32;", "&#x20;"))
+        lits = list(c.written.values()) + [d[1] for _, _, d in c.decls if isinstance(d, tuple)]
+        hist["with_charref_ws"] += any(x in l for l in lits for x in ("&#9;", "&#10;", "&#13;", "&#32;", "&#x20;", "&#x9;"))
+        types = {}
+        for n, ty, d in c.decls:
+            types.setdefault(n, ty)
+        hist["collapsing_changed"] += any(n in types and types[n] != "CDATA" and
+                                          normalized(v, "CDATA", c.ents) != normalized(v, types[n], c.ents)
+                                          for n, v in c.written.items())
         if info != exp:
             if "required-default" in findings and info == c.expected(req_quirk=True):
                 chk.known_finding("required-default " + findings["required-default"]["text"])
